@@ -335,11 +335,18 @@ fn gen_forest(rng: &mut Rng) -> (Vec<PGlyph>, usize) {
     let n = 3 + rng.below(7);
     let mut gs: Vec<PGlyph> = vec![];
     let mut sizes: Vec<usize> = vec![];
+    // a contour whose last point coincides with its first is a different (shorter) contour once it is a closed path: the
+    // closing segment of zero length is not a point. Not what is generated here: nudge such a last point (no extra draws).
+    fn open_ended(mut c: Vec<(f64, f64)>) -> Vec<(f64, f64)> {
+        let n = c.len();
+        while n > 1 && c[0] == c[n - 1] { c[n - 1].0 += 1.0; }
+        c
+    }
     let contour = |rng: &mut Rng| -> Vec<(f64, f64)> {
         let k = 3 + rng.below(3);
-        (0..k).map(|_| (rng.range(-50, 700) as f64, rng.range(-200, 800) as f64)).collect()
+        open_ended((0..k).map(|_| (rng.range(-50, 700) as f64, rng.range(-200, 800) as f64)).collect())
     };
-    let vary = |rng: &mut Rng, c: &Vec<(f64, f64)>| -> Vec<(f64, f64)> { c.iter().map(|(x, y)| (x + rng.range(-40, 40) as f64, y + rng.range(-40, 40) as f64)).collect() };
+    let vary = |rng: &mut Rng, c: &Vec<(f64, f64)>| -> Vec<(f64, f64)> { open_ended(c.iter().map(|(x, y)| (x + rng.range(-40, 40) as f64, y + rng.range(-40, 40) as f64)).collect()) };
     // .notdef first so that GlyphOrderWork neither synthesises nor moves it
     let nd = contour(rng);
     gs.push(PGlyph { name: ".notdef".into(), export: true, adv: vec![500.0; nloc], contours: vec![vec![nd]; nloc], comps: vec![vec![]; nloc] });
